@@ -17,7 +17,7 @@ func init() {
 		Decided: "(a) lookup, authorisation, creation and insertion of a session are one exclusive critical section of the user's session lock (same for lookup/authenticate/insert of the active-user record); the non-bypass path cannot reach the insert without a successful authorisation; " +
 			"(b) authorisation succeeds only under 'existing < cap' (strict), the count passed is len(sessions) evaluated inside that section and the cap is the stored SessionsCap; (c) the key sealed for every connection is the key of the session returned by the lookup-or-create, never the fresh local key; " +
 			"(d) both tables are keyed by the decoded ids (same value at lookup and insert); (e) a new session gets the user's valve; sessions are removed under the lock.",
-		NotDecided: "bbolt's view consistency; negative caps (stored as uint32, read as huge); the race with the user's last session closing (C17's known finding).",
+		NotDecided:  "bbolt's view consistency; negative caps (stored as uint32, read as huge); the race with the user's last session closing (C17's known finding).",
 		Assumptions: []string{"sync.RWMutex.Lock is exclusive"},
 	})
 }
@@ -379,6 +379,10 @@ func c15R4(c *Ctx, rule string) {
 		// the insert key is user.arrUID (copied from UID), the lookup key is arrUID copied from UID
 		okIns := false
 		if fv, _ := loadedField(mu.Key); isField(fv, "internal/server", "ActiveUser", "arrUID") {
+			okIns = true
+		}
+		// or simply the very key that was looked up (user.arrUID = arrUID; activeUsers[arrUID] = user)
+		if len(lks) > 0 && sameValueOrLoad(lks[0].Index, mu.Key) {
 			okIns = true
 		}
 		c.Check(len(lks) > 0 && okIns, rule, "activeUsers keyed by the UID copy in "+shortFn(f), c.at(mu), "lookup by arrUID, insert by user.arrUID (both copies of the UID parameter)", "active-user table is not keyed by the UID copy")
